@@ -267,6 +267,7 @@ func TestC16Wire(t *testing.T) {
 			bits = genAccess(rt, "bits").Defined()
 		}
 		legacy := rapid.Bool().Draw(rt, "legacy")
+		bits2 := genAccess(rt, "bits2").Defined()
 		inWorld(rt, hlsim.Options{Accounts: []hlsim.AccountSpec{acct("seed", "Seed", "x", allAccess)}, Agreement: "a"}, func(rt *rapid.T, w *hlsim.World) {
 			var data []byte
 			if legacy {
@@ -293,12 +294,27 @@ func TestC16Wire(t *testing.T) {
 			if !bytes.Equal(got, bits[:]) {
 				rt.Fatalf("user access sent to client %x, account privileges %x (%v), legacy=%v", got, bits[:], definedSet(bits), legacy)
 			}
+			// the same bytes must follow an edit made while the user is logged in
+			admin := loginAs(rt, w, "10.0.0.2:1", "seed", "x", "seed")
+			c.TakeInbox()
+			if r := admin.Request(hlref.TranSetUser, fld(hlref.FUserLogin, hlref.Obfuscate([]byte("u"))), sfld(hlref.FUserName, "U"), fld(hlref.FUserAccess, bits2[:]), fld(hlref.FUserPassword, []byte{0})); !okReply(r) {
+				rt.Fatalf("harness: set-user refused")
+			}
+			got = nil
+			for _, tr := range c.TakeInbox() {
+				if tr.Type == hlref.TranUserAccess {
+					got, _ = tr.Get(hlref.FUserAccess)
+				}
+			}
+			if !bytes.Equal(got, bits2[:]) {
+				rt.Fatalf("after an administrator changed the privileges of the logged-in user from %x to %x the client was sent %x", bits[:], bits2[:], got)
+			}
 		})
 		lab := "named"
 		if legacy {
 			lab = "legacy"
 		}
-		ev.Case(evid.Hash(bits[:], legacy), len(definedSet(bits)) > 0, "wire:"+lab)
+		ev.Case(evid.Hash(bits[:], legacy, bits2[:]), len(definedSet(bits)) > 0, "wire:"+lab)
 	})
 }
 
